@@ -273,6 +273,11 @@ type GRPCBroker struct {
 	clientStreams map[uint32]*gRPCBrokerPending
 	serverStreams map[uint32]*gRPCBrokerPending
 
+	// listeners are the open listeners handed out by Accept (not multiplexed).
+	// Close closes them so that their Unix socket files are gone by the time
+	// it returns, even if the process exits right after.
+	listeners map[net.Listener]struct{}
+
 	unixSocketCfg  UnixSocketConfig
 	addrTranslator runner.AddrTranslator
 
@@ -297,6 +302,7 @@ func newGRPCBroker(s streamer, tls *tls.Config, unixSocketCfg UnixSocketConfig, 
 
 		clientStreams: make(map[uint32]*gRPCBrokerPending),
 		serverStreams: make(map[uint32]*gRPCBrokerPending),
+		listeners:     make(map[net.Listener]struct{}),
 		muxer:         muxer,
 
 		unixSocketCfg:  unixSocketCfg,
@@ -373,7 +379,26 @@ func (b *GRPCBroker) Accept(id uint32) (net.Listener, error) {
 		return nil, err
 	}
 
-	return listener, nil
+	b.Lock()
+	b.listeners[listener] = struct{}{}
+	b.Unlock()
+
+	return &trackedListener{Listener: listener, broker: b}, nil
+}
+
+// trackedListener is a listener handed out by GRPCBroker.Accept. Closing it
+// also removes it from the set of listeners the broker closes in Close.
+type trackedListener struct {
+	net.Listener
+	broker *GRPCBroker
+}
+
+func (l *trackedListener) Close() error {
+	l.broker.Lock()
+	delete(l.broker.listeners, l.Listener)
+	l.broker.Unlock()
+
+	return l.Listener.Close()
 }
 
 // AcceptAndServe is used to accept a specific stream ID and immediately
@@ -434,6 +459,19 @@ func (b *GRPCBroker) Close() error {
 	b.o.Do(func() {
 		close(b.doneCh)
 	})
+
+	// The servers started by AcceptAndServe stop asynchronously. Close their
+	// listeners here: a plugin process may exit as soon as Close returns, and
+	// the Unix socket files must not be left behind.
+	b.Lock()
+	listeners := make([]net.Listener, 0, len(b.listeners))
+	for ln := range b.listeners {
+		listeners = append(listeners, ln)
+	}
+	b.Unlock()
+	for _, ln := range listeners {
+		ln.Close()
+	}
 	return nil
 }
 
